@@ -1788,6 +1788,16 @@ class Interp:
         elif isinstance(idx, tuple) and a.ndim == 2 and len(idx) == 2 and isinstance(idx[0], SArr) and \
                 isinstance(idx[1], SArr) and idx[0].dtype == 'int' and idx[1].dtype == 'int':
             return self.pair_fancy_store(a, idx[0], idx[1], v)
+        elif isinstance(idx, tuple) and a.ndim == 2 and len(idx) == 2 and isinstance(idx[0], SArr) and idx[0].dtype == 'int' and \
+                idx[0].ndim == 1 and (isinstance(idx[1], int) or is_int_term(idx[1])):
+            # a[rows, j] = v : pairs (rows[k], j)
+            j = self.norm_index(idx[1], a.shape[1])
+            return self.pair_fancy_store(a, idx[0], npm.new_arr(ctx, idx[0].shape, lambda k: j, 'int', 'constcol'), v)
+        elif isinstance(idx, tuple) and a.ndim == 2 and len(idx) == 2 and isinstance(idx[1], SArr) and idx[1].dtype == 'int' and \
+                idx[1].ndim == 1 and (isinstance(idx[0], int) or is_int_term(idx[0])):
+            # a[i, cols] = v : pairs (i, cols[k])
+            i = self.norm_index(idx[0], a.shape[0])
+            return self.pair_fancy_store(a, npm.new_arr(ctx, idx[1].shape, lambda k: i, 'int', 'constrow'), idx[1], v)
         elif isinstance(idx, tuple):
             target = self.arr_getitem(a, idx)
             if not isinstance(target, SArr):
